@@ -92,10 +92,15 @@ impl Header {
         // value, so a future REPE revision can assign meaning to these bits
         // without breaking this receiver.
 
-        let expected = HEADER_SIZE as u64 + query_length + body_length;
-        if length != expected {
+        // The three length fields are untrusted 64-bit values: add them with
+        // overflow checks so a hostile header cannot wrap the sum (a panic in
+        // debug builds, a bogus "consistent" header in release builds).
+        let expected = (HEADER_SIZE as u64)
+            .checked_add(query_length)
+            .and_then(|n| n.checked_add(body_length));
+        if expected != Some(length) {
             return Err(RepeError::LengthMismatch {
-                expected,
+                expected: expected.unwrap_or(u64::MAX),
                 got: length,
             });
         }
